@@ -55,6 +55,17 @@ def run(ctx):
 
 
 def handle_types(ty):
+    if ty.startswith("impl{"):
+        # the future of a crate-local `async fn` (named after the function, which may be a method *of* the handle type): it holds a
+        # handle only if it captured one by value (`try_join(&mut self)` borrows)
+        import re
+        from props import c15 as _c15
+        fx_ = _c15.FX[0]
+        m = re.match(r"impl\{(.*)::\{opaque#\d+\}\}", ty)
+        if fx_ is None or not m:
+            return False
+        kids = [c for c in fx_.children_of(m.group(1)) if c["kind"] == "coroutine"]
+        return any(not u.startswith("&") and handle_types(u) for k in kids for u in (k.get("upvars") or []))
     return "actor::spawner::actor_handle::ActorHandle<" in ty or ty.startswith("addr::OwningAddr<") or "addr::OwningAddr<" in ty
 
 
